@@ -29,7 +29,7 @@ INDENTS = [0, 1, 2, 4, 8, "\t", "  \t"]
 EDGE_VALUES = ["", "a", " ", "  ", "\t", " a", "\ta", " a ", "a\\", " a\\", " \\", "a\"", " a\"", "\"", "\"\"", "\"\"\"", "\"\"\"\"", " \"\"\"",
                "a\"\"\"b", "\\\"\"\"", "\\\\\"\"\"", "a\"\"\"", " a\"\"\"", "\\", "\\\\", "\\n", "\\u0041", "a\nb", "a\n b", " a\nb", "  a\nb", "a\n\nb",
                "a\n \nb", "a\n  b\n c", "\x00", "\x01\x1f", "\x7f", "\x08\x0c\n\r\t", "/", "\xe9", "\u0663", "\u2028", "\u2029", "\x85", "\xa0", "\ufeff",
-               "\uffff", "\U00010000", "\U0001F600", "\U0010FFFF", "\ud800", "\udfff", "\U0001f600", "a\rb", "a\r\nb", "#", ",", "{}", "\"\\\"",
+               "\uffff", "\U00010000", "\U0001F600", "\U0010FFFF", "\ud800", "\udfff", "\ud83d\ude00", "\ude00\ud83d", "a\ud83d\ude00b", "\ud83d\ud83d\ude00", "\ud83d \ude00", "\U0001f600", "a\rb", "a\r\nb", "#", ",", "{}", "\"\\\"",
                "a\n\"", "a\n\\", "a\"\n\"b\"", " \"", " \\\"", "\t\"\"\""]
 
 
